@@ -302,7 +302,207 @@ class retrieve_object_rec(FnSpec):
         return out
 
 
-SPECS = [retrieve_object_rec]
+# ---------------------------------------------------------------------------------------------------------------------
+# ObjectRetrieval.retrieve_object: the per-evaluation cache in front of the classification, the import fall-back for a name
+# the module does not hold, and the start-globals branch for code living in __main__ / __global__
+# ---------------------------------------------------------------------------------------------------------------------
+ISSTR = z3.Function("is_str_value", O, B)
+IMPORTABLE = z3.Function("importlib_finds_module", STR, B)
+IMPORTED = z3.Function("importlib_import_module", STR, O)
+HEAD = z3.Function("canonical_head", CP, STR)
+SG_HAS = z3.Function("start_globals_has", STR, B)
+SG_GET = z3.Function("start_globals_get", STR, O)
+FROM_GLOBAL = z3.Function("canonical_path_under___global__", SS, CP)
+MODOF = z3.Function("module_of_path", CP, O)
+# the denotation of an uncached call: what retrieve_object(parts, m) answers (defined by the equation `definition` below)
+RETRIEVE = z3.Function("retrieve", SS, O, RES)
+CDOM = z3.ArraySort(SS, z3.ArraySort(CP, B))
+CVAL = z3.ArraySort(SS, z3.ArraySort(CP, RES))
+
+
+class _TArr(sv.Ty):
+    """a ghost array (the cache view); never lifted from Python values"""
+
+    def __init__(self, name, sort):
+        self.name, self._sort = name, sort
+
+    def key(self):
+        return (self.name,)
+
+    def sort(self):
+        return self._sort
+
+
+TDOM, TVAL = _TArr("cache_dom", CDOM), _TArr("cache_val", CVAL)
+
+
+def cache_inv(dom, val):
+    """every cached entry is the answer of the uncached call for its key (and, as every answer, tracks only under an accepted path)"""
+    ps = z3.Const("ps_", SS)
+    cp = z3.Const("cp_", CP)
+    v = z3.Select(z3.Select(val, ps), cp)
+    return z3.ForAll([ps, cp], z3.Implies(z3.Select(z3.Select(dom, ps), cp), z3.And(v == RETRIEVE(ps, MODOF(cp)), S1(v))))
+
+
+class retrieve_object(retrieve_object_rec):
+    qualname = "ObjectRetrieval.retrieve_object"
+
+    def __init__(self):
+        super().__init__()
+        g = self.globals
+        g["importlib"] = ObjVal("importlib")
+        self.classes["importlib"] = {"import_module": Model(self.m_import, "importlib.import_module")}
+        self.classes["CPU"]["head"] = Model(lambda eng, a, k, n: Sym(HEAD(a[1].term), TStr), "CanonicalPathUtils.head")
+        self.classes["CPU"]["from_list"] = Model(self.m_from_list, "CanonicalPathUtils.from_list")
+        self.classes["ObjectRetrievalCls"]["retrieve_object"] = Model(self.m_top, "contract:retrieve_object (induction hypothesis)")
+        self.classes["ObjCache"] = {}
+        self.classes["StartGlobals"] = {}
+        g["str"] = str
+
+    # ---- models ------------------------------------------------------------------------------------
+    def m_import(self, eng, args, kwargs, node):
+        f = TStr.lift(args[1]).term
+        if eng.choose(IMPORTABLE(f)):
+            return Sym(IMPORTED(f), PYOBJ)
+        raise _Raise(ExcVal(ModuleNotFoundError))
+
+    def m_from_list(self, eng, args, kwargs, node):
+        l = args[1]
+        if isinstance(l, ObjVal) and l.cls == "GlobalNames":
+            return Sym(FROM_GLOBAL(l.fields["parts"].term), CPATH)
+        raise OutOfSubset("from_list(%r)" % (l,))
+
+    def m_top(self, eng, args, kwargs, node):
+        p, m = self.parts(args[1]), self.obj(args[2])
+        gctx = args[3]
+        eng.event("recursive_retrieve", parts=p, mod=m)
+        c = gctx.fields["cached_objects"]
+        c.fields["dom"] = Sym(z3.Const(sv.fresh_name("cache_dom"), CDOM), TDOM)
+        c.fields["val"] = Sym(z3.Const(sv.fresh_name("cache_val"), CVAL), TVAL)
+        eng.assume(cache_inv(c.fields["dom"].term, c.fields["val"].term), heavy=True)  # the callee keeps the cache coherent
+        r = RETRIEVE(p, m)
+        eng.assume(S1(r))
+        return ObjVal("Resolved", term=r)
+
+    def m_isinstance(self, eng, args, kwargs, node):
+        v, c = args[0], args[1]
+        if isinstance(v, Sym) and v.ty == PYOBJ and isinstance(c, tuple) and str in c:
+            rest = tuple(k for k in c if k is not str)
+            r = super().m_isinstance(eng, [v, rest], kwargs, node)
+            return Sym(z3.Or(r.term, ISSTR(v.term)), TBool)
+        return super().m_isinstance(eng, args, kwargs, node)
+
+    def eval_comprehension(self, eng, e, env, kind):
+        # [str(x) for x in local_path.parts]
+        it = eng.eval(e.generators[0].iter, env)
+        if isinstance(it, Sym) and it.ty == PARTS:
+            return ObjVal("StrParts", parts=it)
+        return super().eval_comprehension(eng, e, env, kind)
+
+    def binop_other(self, eng, op, a, b, node):
+        if isinstance(b, ObjVal) and b.cls == "StrParts" and isinstance(a, ListVal) and a.items == ["__global__"]:
+            return ObjVal("GlobalNames", parts=b.fields["parts"])
+        return NotImplemented
+
+    # ---- the cache and the start globals --------------------------------------------------------------
+    def _key(self, k):
+        if isinstance(k, tuple) and len(k) == 2:
+            return self.parts(k[0]), k[1].term
+        raise OutOfSubset("cache key %r" % (k,))
+
+    def contains_other(self, eng, container, x, node):
+        if isinstance(container, ObjVal) and container.cls == "ObjCache":
+            ps, cp = self._key(x)
+            return z3.Select(z3.Select(container.fields["dom"].term, ps), cp)
+        if isinstance(container, ObjVal) and container.cls == "StartGlobals":
+            return SG_HAS(TStr.lift(x).term)
+        return super().contains_other(eng, container, x, node)
+
+    def getitem_other(self, eng, o, k, node):
+        if isinstance(o, ObjVal) and o.cls == "ObjCache":
+            ps, cp = self._key(k)
+            eng.oblige("cache_key_present", z3.Select(z3.Select(o.fields["dom"].term, ps), cp), kind="safety:KeyError", node=node)
+            return ObjVal("Resolved", term=z3.Select(z3.Select(o.fields["val"].term, ps), cp))
+        if isinstance(o, ObjVal) and o.cls == "StartGlobals":
+            eng.oblige("start_global_present", SG_HAS(TStr.lift(k).term), kind="safety:KeyError", node=node)
+            return Sym(SG_GET(TStr.lift(k).term), PYOBJ)
+        return super().getitem_other(eng, o, k, node)
+
+    def setitem(self, eng, o, k, v, node):
+        if isinstance(o, ObjVal) and o.cls == "ObjCache":
+            ps, cp = self._key(k)
+            r = self.result_term(v)
+            if r is None:
+                raise OutOfSubset("cached value %r" % (v,))
+            dom, val = o.fields["dom"].term, o.fields["val"].term
+            o.fields["dom"] = Sym(z3.Store(dom, ps, z3.Store(z3.Select(dom, ps), cp, z3.BoolVal(True))), TDOM)
+            o.fields["val"] = Sym(z3.Store(val, ps, z3.Store(z3.Select(val, ps), cp, r)), TVAL)
+            eng.event("cache_store", parts=ps, cp=cp, value=r)
+            return
+        return super().setitem(eng, o, k, v, node)
+
+    # ---- contract ----------------------------------------------------------------------------------
+    def make_args(self, eng):
+        cache = ObjVal("ObjCache", dom=Sym(z3.Const("cache_dom", CDOM), TDOM), val=Sym(z3.Const("cache_val", CVAL), TVAL))
+        return {
+            "cls": ObjVal("ObjectRetrievalCls"),
+            "local_path": ObjVal("LocalDepPath", parts=PARTS.const("parts")),
+            "context_mod": PYOBJ.const("context_mod"),
+            "gctx": ObjVal("gctx", cached_objects=cache, start_globals=ObjVal("StartGlobals")),
+            "debug": TBool.const("debug"),
+        }
+
+    def definition(self, p, m):
+        """the answer of an uncached call, case by case (recursive positions: resolve = _retrieve_object_rec, retrieve = itself)"""
+        n = z3.Length(p)
+        f = p[0]
+        tail = z3.SubSeq(p, 1, n - 1)
+        mp = MODPATH(m)
+        g = SG_GET(f)
+        gpath = z3.If(ISMOD(g), MODPATH(g), z3.If(ISFUN(g), FUNPATH(g), FROM_GLOBAL(p)))
+        tracked_global = z3.Or(TRACKED(g), ISFUN(g), ISMOD(g), ISPATHVAL(g), ISSTR(g))
+        in_main = z3.Or(HEAD(mp) == z3.StringVal("__main__"), HEAD(mp) == z3.StringVal("__global__"))
+        from_globals = z3.If(
+            z3.Not(SG_HAS(f)), RES.none,
+            z3.If(z3.And(ISMOD(g), z3.Not(self.is_empty(tail))), RETRIEVE(tail, g),
+                  z3.If(z3.And(AUTH(gpath), tracked_global), RES.auth(g, gpath), RES.ext(gpath))))
+        return z3.If(HAS(m, f), RESOLVE(p, m), z3.If(IMPORTABLE(f), RESOLVE(tail, IMPORTED(f)), z3.If(in_main, from_globals, RES.none)))
+
+    def requires(self, ctx):
+        p, m, n, f, tail, o, here = self.terms(ctx)
+        g = SG_GET(f)
+        c = ctx.args["gctx"].fields["cached_objects"]
+        return [("kinds_%d_%d" % (j, i), z3.substitute_vars(a.body(), x)) for j, x in enumerate((g, IMPORTED(f))) for i, a in enumerate(kind_axioms())] + [
+            ("a_local_path_has_at_least_one_name", n > 0),
+            ("a_module_is_determined_by_its_path", MODOF(MODPATH(m)) == m),
+            ("a_str_value_is_no_module_function_class_or_path", z3.Implies(ISSTR(g), z3.And(z3.Not(ISMOD(g)), z3.Not(ISFUN(g)), z3.Not(ISCLASS(g)), z3.Not(ISPATHVAL(g))))),
+            ("definition_of_the_uncached_answer_at_this_key", RETRIEVE(p, m) == self.definition(p, m)),
+            ("cache_is_coherent", cache_inv(c.fields["dom"].term, c.fields["val"].term)),
+        ]
+
+    def ensures(self, ctx):
+        r = self.result_term(ctx.result)
+        if r is None:
+            return [("result_is_a_resolution", False)]
+        p, m, n, f, tail, o, here = self.terms(ctx)
+        c = ctx.args["gctx"].fields["cached_objects"]
+        return [
+            ("S1_only_an_object_under_an_accepted_path_is_tracked", S1(r)),
+            ("hit_or_miss_the_answer_is_that_of_the_uncached_call", r == RETRIEVE(p, m)),
+            ("the_cache_stays_coherent", cache_inv(c.fields["dom"].term, c.fields["val"].term)),
+            # (quantifier free, so that a wrong store is refuted with a definite model)
+            ("what_this_call_caches_is_its_answer_under_its_key", z3.And(*[z3.And(ev.data["parts"] == p, ev.data["cp"] == MODPATH(m), ev.data["value"] == r) for ev in ctx.events if ev.kind == "cache_store"] + [z3.BoolVal(True)])),
+        ]
+
+    def signals(self, ctx):
+        e = ctx.exc
+        c = ctx.args["gctx"].fields["cached_objects"]
+        # nothing is cached for a resolution that failed
+        return [("only_coded_dds_errors_of_the_resolution", e.cls is DS.DDSException), ("the_cache_stays_coherent", cache_inv(c.fields["dom"].term, c.fields["val"].term))]
+
+
+SPECS = [retrieve_object_rec, retrieve_object]
+
 
 
 def lemmas():
